@@ -12,7 +12,7 @@ package shimagent
 //vsym:expect-cover C10.hw-accepted C10.hw-refused-no-key C10.hw-refused-not-cert C10.hw-sign-forwarded C10.hw-removed C10.listed-once C10.forward-ok C10.forward-too-large C10.forward-short C10.fault-surfaces
 //vsym:bound H10_addhardcert: upstream holding 0..2 identities (either of two plain keys, a certificate over key 1); candidate = certificate over key 1 or 2 with symbolic window containing the symbolic clock, a plain key, or nil; sign data of 2 symbolic bytes, flags symbolic
 //vsym:bound H10_forward: request of 0..3 symbolic bytes; reply with an arbitrary 32-bit declared length and 0..4 available body bytes, or a failing write/read
-//vsym:bound H10_faults: one operation out of List, Signers, Sign, Add, Remove, RemoveAll, AddHardCert, Lock, Unlock, Extension with the k-th upstream call failing, k in 0..2
+//vsym:bound H10_faults: one operation out of List, Signers, Sign, Add, Remove, RemoveAll, AddHardCert, Lock, Unlock, Extension, Sign / SignWithFlags (symbolic flags) with the in-memory hardware certificate, with the k-th upstream call failing, k in 0..2
 
 import (
 	"errors"
@@ -267,7 +267,7 @@ func H10_faults() {
 	mem := h10Valid(1, false)
 	mwPutMem(s, mem)
 	lockedFirst := false
-	op := vChoose(10, "operation")
+	op := vChoose(12, "operation")
 	if op == 8 {
 		vAssume(s.Lock([]byte("p")) == nil)
 		lockedFirst = true
@@ -296,6 +296,11 @@ func H10_faults() {
 			err = s.Unlock([]byte("p"))
 		case 9:
 			_, err = s.Extension("ext", []byte("c"))
+		case 10:
+			// signing with the in-memory hardware certificate itself
+			_, err = s.Sign(mem, []byte("d"))
+		case 11:
+			_, err = s.SignWithFlags(mem, []byte("d"), agent.SignatureFlags(vNondetU32("flags")))
 		}
 	})
 	vAssert(!crashed, "C10.no-crash")
